@@ -117,6 +117,16 @@ class TransformationPerformer:
     np_op_id_map[original_op_id:] += num_ops_added
     self._original_op_id_map[subgraph_id] = np_op_id_map.tolist()
 
+  def _first_original_op_at_or_after(
+      self, subgraph_id: int, op_position: int
+  ) -> int:
+    """Returns the first original op id currently located at >= op_position."""
+    op_id_map = self._original_op_id_map[subgraph_id]
+    for original_op_id, current_position in enumerate(op_id_map):
+      if current_position >= op_position:
+        return original_op_id
+    return len(op_id_map)
+
   def _update_instructions(
       self,
       prev_transformation_index: int,
@@ -196,6 +206,10 @@ class TransformationPerformer:
       ]
     consumers = []
     for original_op_id in instruction.consumers:
+      if original_op_id < 0:
+        # -1 stands for the graph output, which is not an op in the map.
+        consumers.append(-1)
+        continue
       consumers.append(
           self._original_op_id_map[transformation_inst.subgraph_id][
               original_op_id
@@ -220,7 +234,9 @@ class TransformationPerformer:
     )
     self._update_op_id_map(
         transformation_inst.subgraph_id,
-        min(instruction.consumers),
+        self._first_original_op_at_or_after(
+            transformation_inst.subgraph_id, trans_info.op_id
+        ),
         trans_info.num_ops_added,
     )
 
